@@ -468,6 +468,19 @@ func runChunk(p *Prop, env *Env, c chunk, worker int, agg *Agg, mu *sync.Mutex) 
 		for i := range results {
 			agg.add(env, &results[i])
 		}
+		if rb, err := os.ReadFile(out + ".race"); err == nil {
+			for _, rep := range ParseRaceReports(string(rb)) {
+				r := CaseResult{Idx: lo, Nontrivial: true}
+				if rep.Library {
+					r.Violate(fmt.Sprintf("%s|race|%s|%s", p.ID, rep.A, rep.B), "the race detector reported a data race between "+rep.A+" and "+rep.B+" (cases "+strconv.Itoa(lo)+".."+strconv.Itoa(c.hi-1)+")", map[string]any{"report": rep.Text})
+				} else {
+					r.Violate(p.ID+"|harness|race-in-harness-only", "the race detector reported a race with no hackpadfs frame: the harness is broken\n"+rep.Text, nil)
+				}
+				agg.Counters["race_reports"]++
+				agg.add(env, &r)
+				agg.Evaluations--
+			}
+		}
 		mu.Unlock()
 		done := lo + len(results)
 		if state == "" && done >= c.hi {
@@ -598,6 +611,21 @@ func spawnChild(p *Prop, env *Env, lo, hi int, out, logf string) (state string) 
 	cmd.Stdout = lf
 	cmd.Stderr = lf
 	cmd.Env = append(os.Environ(), "GOTRACEBACK=all")
+	if p.Race {
+		// race reports go to a log inside the jail and do not end the process: the parent counts and de-duplicates them
+		cmd.Env = append(cmd.Env, "GORACE=halt_on_error=0 exitcode=0 log_path=/race")
+		defer func() {
+			if logs, _ := filepath.Glob(filepath.Join(jail, "race.*")); len(logs) > 0 {
+				var sb strings.Builder
+				for _, l := range logs {
+					if b, err := os.ReadFile(l); err == nil {
+						sb.Write(b)
+					}
+				}
+				_ = os.WriteFile(out+".race", []byte(sb.String()), 0o644)
+			}
+		}()
+	}
 	cmd.SysProcAttr = &syscall.SysProcAttr{Setpgid: true}
 	if err := cmd.Start(); err != nil {
 		return "cannot start child: " + err.Error()
@@ -870,4 +898,62 @@ func Recover(f func()) (panicked string) {
 	}()
 	f()
 	return ""
+}
+
+// RaceReport is one de-duplicated report of the Go race detector.
+type RaceReport struct {
+	A, B    string // outermost library functions of the two accesses (line numbers stripped)
+	Library bool   // at least one hackpadfs frame is involved
+	Text    string
+}
+
+// ParseRaceReports splits a race log into reports and names each by the innermost hackpadfs function of its first two stacks.
+func ParseRaceReports(log string) []RaceReport {
+	var out []RaceReport
+	seen := map[string]bool{}
+	for _, block := range strings.Split(log, "WARNING: DATA RACE")[1:] {
+		if i := strings.Index(block, "=================="); i >= 0 {
+			block = block[:i]
+		}
+		var fns []string
+		harness := false
+		for _, stack := range strings.Split(block, "\n\n") {
+			// the innermost frame that belongs to the library or to the harness owns the access
+			fn := ""
+			for _, line := range strings.Split(stack, "\n") {
+				line = strings.TrimSpace(line)
+				if fn == "" && strings.HasPrefix(line, "hpverif/") {
+					fn = "harness"
+					harness = true
+				}
+				if strings.HasPrefix(line, "github.com/hack-pad/hackpadfs") && fn == "" {
+					if j := strings.LastIndex(line, "("); j > 0 {
+						line = line[:j] // drop the argument list, keep receiver and method
+					}
+					fn = strings.TrimPrefix(line, "github.com/hack-pad/hackpadfs")
+				}
+			}
+			if fn != "" {
+				fns = append(fns, fn)
+			}
+			if len(fns) == 2 {
+				break
+			}
+		}
+		rep := RaceReport{Text: "WARNING: DATA RACE" + block}
+		if len(rep.Text) > 3000 {
+			rep.Text = rep.Text[:3000]
+		}
+		if len(fns) > 0 && !harness {
+			rep.Library = true
+			rep.A = fns[0]
+			rep.B = fns[len(fns)-1]
+		}
+		key := rep.A + "|" + rep.B
+		if !seen[key] {
+			seen[key] = true
+			out = append(out, rep)
+		}
+	}
+	return out
 }
